@@ -106,7 +106,64 @@ pub fn fold_column_sorts(f: &mut Flattener, by: Vec<ColumnSort>) -> (r: Result<V
 """
 
 
+COVERED_ARMS = ("TransformKind::Sort", "TransformKind::Group", "TransformKind::Window", "kind")
+
+
+def _check_arms(X):
+    """Every arm of `match *t.kind { .. }` in Flattener::fold_expr must be one of the arms this unit has a contract for: an arm that is not (an edit added a special case) is
+    code this unit cannot speak about - the unit is then UNDECIDED instead of passing over it."""
+    from extract import code_tokens, match_brace
+    f = X.fn(FLATTEN, "fold_expr")
+    X.items.remove(f)
+    m = re.search(r"match \*t\.kind \{", f.text)
+    if not m:
+        raise ExtractionError("Flattener::fold_expr: `match *t.kind { .. }` not found")
+    toks = code_tokens(f.text)
+    k = next(i for i, t in enumerate(toks) if t[1] == m.end() - 1)
+    close = match_brace(f.text, toks, k)
+    heads, depth, start = [], 0, toks[k][2]
+    i = k + 1
+    while i < close:
+        ch = f.text[toks[i][1]]
+        if toks[i][0] == "punct" and ch in "([{":
+            depth += 1
+        elif toks[i][0] == "punct" and ch in ")]}":
+            depth -= 1
+        elif depth == 0 and f.text[toks[i][1]:toks[i][1] + 2] == "=>":
+            pat = " ".join(f.text[start:toks[i][1]].split())
+            heads.append(pat)
+            # skip the arm's body: a block or an expression up to the next top-level comma
+            j = i + 1
+            if f.text[toks[j][1]] == ">":     # `=>` is two punctuation tokens
+                j += 1
+            if f.text[toks[j][1]] == "{":
+                j = match_brace(f.text, toks, j)
+                i = j
+                if i + 1 < close and f.text[toks[i + 1][1]] == ",":
+                    i += 1
+            else:
+                d2 = 0
+                while j < close:
+                    c2 = f.text[toks[j][1]]
+                    if toks[j][0] == "punct" and c2 in "([{":
+                        d2 += 1
+                    elif toks[j][0] == "punct" and c2 in ")]}":
+                        d2 -= 1
+                    elif toks[j][0] == "punct" and c2 == "," and d2 == 0:
+                        break
+                    j += 1
+                i = j
+            start = toks[i][2]
+        i += 1
+    for h in heads:
+        head = re.match(r"(TransformKind::\w+|\w+)", h)
+        if not head or head.group(1) not in COVERED_ARMS:
+            raise ExtractionError("Flattener::fold_expr has an arm `%s` that no contract of this unit covers (covered: %s)" % (h[:80], ", ".join(COVERED_ARMS)))
+    return heads
+
+
 def build(X):
+    _check_arms(X)
     tk = X.type_item("prqlc/prqlc/src/ir/pl/extra.rs", "enum", "TransformKind").drop_attrs()
     tk.text = "pub type JoinSide2 = OpaqueT;\n" + tk.text.replace("side: JoinSide,", "side: JoinSide2,")
 
@@ -238,6 +295,11 @@ CASES = [
     ("from a\nselect {id, x, g}\nsort {-x}\njoin (from b | sort v) (==id)\ntake 2\ngroup a.g (aggregate {n = count this, t = sum a.x})\nsort g\n", [('q', 1, 40), ('r', 1, 50)], True),
     ("from a\nsort {-x}\ntake 3\nselect {id}\n", [(r[0],) for r in _BYX[:3]], True),
     ("from a\nsort x\nderive {r = row_number this}\nfilter r <= 2\nselect {id}\nsort id\n", [(1,), (6,)], True),
+    # an aggregation inside a joined sub-pipeline does not switch off the sorts of the outer pipeline
+    ("from b\njoin (from a | aggregate {m = max x}) (b.v > m)\nselect {b.id, b.v, m}\nsort {-v}\ntake 3\n", [(6, 600, 50), (5, 500, 50), (4, 400, 50)], True),
+    # a window function written inside a filter sees the order in effect
+    ("from a\nsort {-x}\nfilter (row_number this) <= 2\nselect {id}\nsort id\n", [(4,), (5,)], True),
+    ("from a\ngroup g (sort {-x} | filter (row_number this) <= 1)\nselect {id}\nsort id\n", [(2,), (4,), (5,)], True),
     # the order of an APPENDED sub-pipeline does not replace the order in effect either (its columns are not even visible in the top pipeline)
     ("from a\nselect {id, x}\nsort {-x}\nappend (from b | select {id, v = v * 2} | sort v)\nderive {rn = row_number this}\nfilter rn <= 2\nselect {id, x}\nsort {-x}\n", None, True),
 ]
